@@ -305,6 +305,7 @@ func init() {
 				l.Add("push", netParams{Op: "push", N: 9, BaseRows: 4, Branches: 2, Tags: true, TagSrc: []string{"short", "bare", "head"}[i%3]}, int64(1041+i))
 				l.Add("push", netParams{Op: "push", N: 9, BaseRows: 4, Branches: 2, Tags: true, TagRel: "clobber", TagSrc: []string{"short", "bare", "head", ""}[i%4]}, int64(1051+i))
 				l.Add("fetch", netParams{Op: "fetch", N: 9, BaseRows: 4, Branches: 2, Tags: true, Tags2: true, TagRel: "clobber", All: i%2 == 0}, int64(1061+i))
+				l.Add("fetch", netParams{Op: "fetch", N: 9, BaseRows: 4, Branches: 2, Tags: true, TagSlash: true, TagRel: "clobber", All: i%2 == 1}, int64(1091+i))
 			}
 			for i := 0; i < l.N(150, 8000); i++ {
 				p := netParams{N: 4 + rng.Intn(9), BaseRows: 4, Branches: 1 + rng.Intn(4), Tags: rng.Intn(2) == 0}
@@ -326,6 +327,9 @@ func init() {
 				}
 				if p.Tags && rng.Intn(2) == 0 {
 					p.Tags2 = true
+				}
+				if p.Tags && rng.Intn(3) == 0 {
+					p.TagSlash = true
 				}
 				if p.Op == "push" && p.Tags {
 					p.TagSrc = []string{"", "short", "bare", "head"}[rng.Intn(4)]
